@@ -1243,12 +1243,13 @@ pub fn oracle_c10(line: &str) -> String {
         Some(b) => b,
         None => return "na".into(),
     };
-    let t0 = std::time::Instant::now();
+    let (c0, t0) = (crate::rng::thread_cpu_ms(), std::time::Instant::now());
     let res = match std::panic::catch_unwind(|| GdsLibrary::from_bytes(&bytes)) {
         Err(_) => return "fail reader panicked".into(),
         Ok(r) => r,
     };
-    let dt = t0.elapsed().as_secs_f64();
+    // CPU time of this thread where available (a loaded machine is not a slow reader), else wall clock
+    let dt = match (c0, crate::rng::thread_cpu_ms()) { (Some(a), Some(b)) if b >= a => (b - a) as f64 / 1000.0, _ => t0.elapsed().as_secs_f64() };
     if dt > 2.0 + bytes.len() as f64 * 1e-4 {
         return format!("fail reading {} bytes took {:.2}s", bytes.len(), dt);
     }
